@@ -159,3 +159,59 @@ func ZZ_C08_canaryPaused() {
 	nondet.Reach("C08.canary.cond-paused-ann-false", condPaused && !annPaused && len(ann) > 0 && !annUnpaused)
 	nondet.Reach("C08.canary.unpaused", paused && annUnpaused)
 }
+
+// ZZ_C08_resumeIgnoresReplicaSetCopies: "a rolling update resumes once its annotation is removed
+// or set to false".  The ExtendedDaemonSet controller copies the ExtendedDaemonSet's annotations
+// onto a replica set when it creates it, so a replica set created while the rollout was paused
+// or frozen keeps a stale "true" copy for ever: only the ExtendedDaemonSet's own annotations
+// decide.  One outdated available pod and one node without pod; the annotation on the
+// ExtendedDaemonSet absent / "false" / "true", the copies on the replica set absent / "true".
+func ZZ_C08_resumeIgnoresReplicaSetCopies() {
+	ann := map[string]string{}
+	_ = ann
+	edsPaused := nondet.String("eds.paused", "absent", "false", "true")
+	edsFrozen := nondet.String("eds.frozen", "absent", "false", "true")
+	if edsPaused != "absent" {
+		ann[datadoghqv1alpha1.ExtendedDaemonSetRollingUpdatePausedAnnotationKey] = edsPaused
+	}
+	if edsFrozen != "absent" {
+		ann[datadoghqv1alpha1.ExtendedDaemonSetRolloutFrozenAnnotationKey] = edsFrozen
+	}
+	ds := zzDaemonset(ann)
+	rs := zzReplicaSet()
+	rs.Annotations = map[string]string{}
+	if nondet.Bool("rs.staleCopy.paused") {
+		rs.Annotations[datadoghqv1alpha1.ExtendedDaemonSetRollingUpdatePausedAnnotationKey] = "true"
+	}
+	if nondet.Bool("rs.staleCopy.frozen") {
+		rs.Annotations[datadoghqv1alpha1.ExtendedDaemonSetRolloutFrozenAnnotationKey] = "true"
+	}
+	params, _ := zzParams(ds, rs, []int{zzOutdatedAvailable, zzNoPod})
+	res, err := ManageDeployment(fakeapi.New(), ds, params, metav1.Now())
+	nondet.Assert("C08.copies.noerror", err == nil)
+	if err != nil {
+		return
+	}
+	paused, frozen := edsPaused == "true", edsFrozen == "true"
+	nondet.Assert("C08.copies.flags", res.IsPaused == paused && res.IsFrozen == frozen)
+	wantDelete, wantCreate := 1, 1
+	if paused || frozen {
+		wantDelete = 0
+	}
+	if frozen {
+		wantCreate = 0
+	}
+	// maxUnavailable defaults to 1 and one node already lacks its pod: the update deletion waits
+	// for the creation, so only the creation is planned when nothing holds the rollout
+	nondet.Assert("C08.copies.creates", len(res.PodsToCreate) == wantCreate)
+	nondet.Assert("C08.copies.deletes-at-most", len(res.PodsToDelete) <= wantDelete)
+	activeTrue := false
+	for _, cd := range params.NewStatus.Conditions {
+		if cd.Type == datadoghqv1alpha1.ConditionTypeActive {
+			activeTrue = cd.Status == "True"
+		}
+	}
+	nondet.Assert("C08.copies.active-condition", activeTrue == (!paused && !frozen))
+	nondet.Observe("nCreate", len(res.PodsToCreate))
+	nondet.Reach("C08.copies.resumed-despite-copy", !paused && !frozen && len(rs.Annotations) == 2 && len(res.PodsToCreate) == 1)
+}
